@@ -48,30 +48,40 @@ func runConnWrite(id string, toks []string) (res string) {
 	}
 	grace := 30 * time.Millisecond
 	rk := refKey(k[:], "Control-Read-Encryption-Key")
-	// which payload does a pending ciphertext belong to? unknown to the runner (it is encrypted); it releases by
-	// arrival rank according to pref: pref[i] = rank (among currently pending, by arrival) to release at round i
+	finished := make(chan struct{})
+	go func() { wg.Wait(); close(finished) }()
+	// The runner cannot tell which payload a pending (encrypted) socket write belongs to; it releases by arrival
+	// rank: pref[i] = rank, among the writes pending at round i, of the one to release.
 	var pending []*gatedWrite
-	released := 0
 	maxPending := 0
 	round := 0
-	for released < len(payloads) {
+	allDone := false
+	idle := 0
+	for !allDone {
 		timeout := time.After(grace)
 	collect:
-		for len(pending)+released < len(payloads) {
+		for {
 			select {
 			case g := <-sc.gate:
 				pending = append(pending, g)
+			case <-finished:
+				allDone = true
+				break collect
 			case <-timeout:
 				break collect
 			}
 		}
 		if len(pending) == 0 {
-			grace *= 2
-			if grace > 2*time.Second {
+			if allDone {
+				break
+			}
+			idle++
+			if idle > 100 {
 				return "stuck"
 			}
 			continue
 		}
+		idle = 0
 		if len(pending) > maxPending {
 			maxPending = len(pending)
 		}
@@ -83,11 +93,17 @@ func runConnWrite(id string, toks []string) (res string) {
 		g := pending[idx]
 		pending = append(pending[:idx], pending[idx+1:]...)
 		close(g.release)
-		released++
-		// give the released writer time to finish and the next one (if the writes are serialised) to arrive
+		// give the released writer time to go on (and, when writes are serialised, the next one to arrive)
 		time.Sleep(2 * time.Millisecond)
+		allDone = false
+		select {
+		case <-finished:
+			if len(pending) == 0 {
+				allDone = true
+			}
+		default:
+		}
 	}
-	wg.Wait()
 	sc.mu.Lock()
 	var stream []byte
 	for _, w := range sc.written {
